@@ -103,10 +103,15 @@ class CallGraph:
             todo.extend(self.edges.get(x, {}).keys())
         return seen
 
-    def sccs(self, within=None, removed=()):
-        """Tarjan, iterative.  Returns the components that contain a cycle (size > 1 or a self loop)."""
+    def sccs(self, within=None, removed=(), drop_edge=None):
+        """Tarjan, iterative.  Returns the components that contain a cycle (size > 1 or a self loop).
+        drop_edge(u, v) -> True removes the edge u -> v from the graph that is searched."""
         nodes = [n for n in self.nodes if (within is None or n in within) and n not in removed]
         ok = set(nodes)
+        if drop_edge is None:
+            succ = lambda u: sorted(k for k in self.edges.get(u, {}) if k in ok)
+        else:
+            succ = lambda u: sorted(k for k in self.edges.get(u, {}) if k in ok and not drop_edge(u, k))
         index = {}
         low = {}
         onstack = set()
@@ -116,7 +121,7 @@ class CallGraph:
         for root in nodes:
             if root in index:
                 continue
-            work = [(root, iter(sorted(k for k in self.edges.get(root, {}) if k in ok)))]
+            work = [(root, iter(succ(root)))]
             index[root] = low[root] = counter[0]
             counter[0] += 1
             stack.append(root)
@@ -130,7 +135,7 @@ class CallGraph:
                         counter[0] += 1
                         stack.append(w)
                         onstack.add(w)
-                        work.append((w, iter(sorted(k for k in self.edges.get(w, {}) if k in ok))))
+                        work.append((w, iter(succ(w))))
                         adv = True
                         break
                     elif w in onstack:
@@ -149,11 +154,11 @@ class CallGraph:
                         comp.append(w)
                         if w == v:
                             break
-                    if len(comp) > 1 or v in self.edges.get(v, {}):
+                    if len(comp) > 1 or v in succ(v):
                         out.append(sorted(comp))
         return out
 
-    def a_cycle(self, comp):
+    def a_cycle(self, comp, drop_edge=None):
         """One concrete cycle inside a component, as [(caller Func, call site node, callee Func)]."""
         comp = set(comp)
         start = sorted(comp)[0]
@@ -164,7 +169,7 @@ class CallGraph:
         while todo:
             x = todo.pop(0)
             for y, sites in sorted(self.edges.get(x, {}).items()):
-                if y not in comp:
+                if y not in comp or (drop_edge is not None and drop_edge(x, y)):
                     continue
                 if y == start:
                     path = [(x, sites[0], y)]
@@ -259,7 +264,71 @@ def depth_guard(idx, f):
     return None
 
 
-def decide_cycles(idx, cg, within, structural=()):
+def receiver_root(idx, f, call, tree_base=None):
+    """Where does the object of a member call come from?  'self' (this or a member of this), 'param' (a parameter of f, possibly
+    through getters / members / smart-pointer access and through locals initialised that way), or 'other' (a table lookup, a cast
+    of something fetched elsewhere ...)."""
+    kind, name, did, obj = callee_of(call)
+    if obj is None:
+        return 'other'
+    inits = {d['id']: children(d)[-1] for d in walk(f.body) if d.get('kind') == 'VarDecl' and children(d)} if f.body is not None else {}
+    params = {p_['id'] for p_ in f.params}
+
+    def root(e, d=0):
+        e = cast.strip(e)
+        k = e.get('kind')
+        if d > 12:
+            return 'other'
+        if k == 'CXXThisExpr':
+            return 'self'
+        if k == 'MemberExpr':
+            ch = children(e)
+            return root(ch[0], d + 1) if ch else 'self'
+        if k == 'CXXMemberCallExpr':
+            k2, n2, d2, o2 = callee_of(e)
+            if n2 in ('lookup', 'find', 'at'):
+                return 'other'
+            return root(o2, d + 1) if o2 is not None else 'other'
+        if k == 'CXXOperatorCallExpr':
+            n2 = callee_of(e)[1]
+            a = call_args_(e)
+            if n2 in ('operator->', 'operator*') and a:
+                return root(a[0], d + 1)
+            if n2 == 'operator[]' and a:
+                return root(a[0], d + 1)
+            return 'other'
+        if k == 'UnaryOperator' and e.get('opcode') in ('*', '&'):
+            return root(children(e)[0], d + 1)
+        if k in ('CXXDynamicCastExpr', 'CXXStaticCastExpr', 'CXXConstCastExpr'):
+            return root(children(e)[0], d + 1)
+        if k == 'DeclRefExpr':
+            r = e.get('referencedDecl') or {}
+            if r.get('id') in params:
+                if tree_base is None:
+                    return 'param'
+                # only a parameter that *is* a tree node (pointer, reference, smart pointer to a class derived from the tree base)
+                import re
+                t = (r.get('type') or {}).get('qualType', '')
+                for tn in re.findall(r'[A-Za-z_][\w:]*', t):
+                    q = tn if tn in idx.records else idx._resolve_record_name(tn.split('::')[-1], f.cls or f.qname)
+                    if q and idx.derives_from(q, tree_base):
+                        return 'param'
+                return 'other'
+            if r.get('kind') == 'VarDecl' and r.get('id') in inits:
+                return root(inits[r['id']], d + 1)
+            return 'other'
+        if k == 'CallExpr':
+            return 'other'
+        return 'other'
+    return root(obj)
+
+
+def call_args_(n):
+    from .cast import call_args
+    return call_args(n)
+
+
+def decide_cycles(idx, cg, within, structural=(), tree_base=None):
     """For every recursive component inside `within`: {'names', 'kind': guarded|structural|unbounded, 'detail', 'where', 'bounds'}."""
     out = []
     structural = set(structural)
@@ -283,18 +352,41 @@ def decide_cycles(idx, cg, within, structural=()):
         if not rest:
             out.append({'names': names, 'kind': 'guarded', 'detail': gtxt, 'where': guards[sorted(guards)[0]][2], 'bounds': bounds})
             continue
-        rest2 = cg.sccs(within=cset, removed=set(guards) | structural)
+        def descent_edge(u, v, cg=cg, structural=structural):
+            # an edge into a tree-descent method counts as descent only if every call site applies it to a node reached from the
+            # caller's own object or parameters (a child); applying it to a node fetched from a table may revisit the same node
+            if v not in structural:
+                return False
+            return all(receiver_root(idx, cg.nodes[u], site, tree_base) in ('self', 'param') for site in cg.edges.get(u, {}).get(v, []))
+        # (1) a call that applies a tree-descent method to a node that is *not* reached from the caller's own node (fetched from a table,
+        #     say) can revisit a node: such an edge on a cycle makes the recursion unbounded whatever else the cycle does
+        jumps = []
+        for comp_r in rest:
+            cr = set(comp_r)
+            for u in comp_r:
+                for v, sites in cg.edges.get(u, {}).items():
+                    if v in cr and v in structural and not descent_edge(u, v):
+                        jumps.append((u, v, sites[0]))
+        if jumps:
+            u, v, site = jumps[0]
+            out.append({'names': names, 'kind': 'unbounded', 'bounds': bounds, 'where': pos(site),
+                        'detail': 'recursion with no depth bound: %s applies the tree-descent method %s at %s to a node that is not a child of the '
+                                  'node being visited (it comes from a lookup / cast of something fetched elsewhere), and that call is on a cycle '
+                                  '(%d functions): the same node can be entered again' % (cg.nodes[u].qname, cg.nodes[v].qname, pos(site), len(names))})
+            continue
+        # (2) what remains after the genuine descents are taken out must be acyclic
+        rest2 = cg.sccs(within=cset, removed=set(guards), drop_edge=descent_edge)
         if not rest2:
             through = sorted({cg.nodes[c].qname for c in cset & structural})
             out.append({'names': names, 'kind': 'structural', 'bounds': bounds, 'where': pos(cg.nodes[comp[0]].node),
-                        'detail': 'every cycle passes through %d tree-descent methods (%s ...): depth <= depth of the syntax tree' % (
-                            len(through), ', '.join(through[:3]))})
+                        'detail': 'every cycle passes through a call of one of %d tree-descent methods (%s ...) on a child of the node being '
+                                  'visited: depth <= depth of the syntax tree' % (len(through), ', '.join(through[:3]))})
             continue
         cyc = []
         for r in rest2:
-            path = cg.a_cycle(r)
+            path = cg.a_cycle(r, descent_edge)
             cyc.append(' -> '.join('%s (calls at %s)' % (a.qname, pos(s)) for a, s, b in path) + ' -> ' + (path[0][0].qname if path else '?'))
-        first = cg.a_cycle(rest2[0])
+        first = cg.a_cycle(rest2[0], descent_edge)
         out.append({'names': names, 'kind': 'unbounded', 'bounds': bounds, 'where': pos(first[0][1]) if first else '?',
                     'detail': 'recursion with no depth bound: ' + ' | '.join(cyc) + ((' [guards elsewhere in the component: %s]' % gtxt) if gtxt else '')})
     return out
